@@ -608,6 +608,23 @@ Theorem C20_node_written_within_limit :
 Proof. exact run_node_written_within_limit. Qed.
 Print Assumptions C20_node_written_within_limit.
 
+(* nothing is invented and nothing leaks between peers: every message written to a peer's
+   substream, in any history of the node, is a message of a command the user gave for that peer *)
+Theorem C20_written_only_commanded :
+  forall (D : Type) (digest : N -> D -> option (list N)) mb mm es m,
+    In m (snd (run_peer D digest mb mm ps_init es)) ->
+    exists a, In (PSend a) es /\ In m (action_msgs mb mm a).
+Proof. exact written_only_commanded. Qed.
+Print Assumptions C20_written_only_commanded.
+
+Theorem C20_node_written_only_commanded :
+  forall (D : Type) (digest : N -> D -> option (list N)) mb mm ops st,
+    (forall q, ps_pend (get_ps st q) = []) ->
+    forall p m, In (p, m) (snd (run_node_ops D digest mb mm st ops)) ->
+      exists a, In (p, PSend a) ops /\ In m (action_msgs mb mm a).
+Proof. exact node_written_only_commanded. Qed.
+Print Assumptions C20_node_written_only_commanded.
+
 (* non-vacuity *)
 Example C20_nonvacuous_batching :
   let l := [mkSB 0 (mkCid 1 85 18 (repeat 0 32%nat)) 10; mkSB 1 (mkCid 1 85 18 (repeat 0 32%nat)) 101;
